@@ -77,6 +77,7 @@ type Interp struct {
 	tt           *TermTable
 	epoch        int32
 	goLeak       bool            // check at harness end that no channel holds more than its buffer
+	mapAssign    bool            // the current map operation is an assignment
 	chans        []*ChanObj      // channels made on this path
 	cow          map[*Cell]Value // path-local overlay over frozen heap cells
 	steps        int
